@@ -24,7 +24,7 @@ LEVEL_NOTE = ('Trusted: Lean kernel, translator (reads DEFAULT_CATEGORIES/VERBAT
 TECHNIQUE = 'Lean 4 proof (invariant induction over catcode assignments; functional induction over the tokenizer) + regenerated tables + exhaustive/seeded differential correspondence'
 TRUSTED = ['python oracle harness/props/c01.py:tex_lex (property-level reference lexer used for prop_ok and the search)']
 ASSUMPTIONS = ['string sources only (no byte decoding)', 'no \\let aliases in force while tokenizing', 'category codes 0..15', 'no lone surrogates in the input']
-RULE = ('exhaustive: every string of length <= L over a 13-symbol class-representative alphabet under 4 tables (L=4 quick, 5 thorough); '
+RULE = ('exhaustive: every pair of successive \\catcode assignments (16x16) for 4 characters; every string of length <= L over a 13-symbol class-representative alphabet under 4 tables (L=4 quick, 5 thorough); '
         'seeded: random strings (<=200 chars) over the adversarial alphabet under default/@-letter/verbatim/1-6 random reassignments; '
         'non-trivial = the token stream is non-empty and exercises at least one of: escape, blank handling, comment, ^^, par, ignored; distinct = distinct request line')
 EXHAUSTIVE = {'quick': 'all strings of length <= 4 over the 13-symbol alphabet x 4 tables', 'thorough': 'all strings of length <= 5 over the 13-symbol alphabet x 4 tables'}
@@ -220,6 +220,18 @@ def generate(ctx):
         for n in range(0, L + 1):
             for tup in itertools.product(ALPHA13, repeat=n):
                 yield Case('tok', line(ops, ''.join(tup)), None)
+    # reassignment chains: every pair (and sampled triples) of successive category codes for one character
+    for c in ('!', 'a', '\\', '%'):
+        for k1 in range(16):
+            for k2 in range(16):
+                ops = ['D', '%d=%d' % (ord(c), k1), '%d=%d' % (ord(c), k2)]
+                yield Case('code', line(ops, c + 'b\\'), None)
+                yield Case('tok', line(ops, 'a' + c + 'b ' + c + c + 'M\\' + c + ' x'), None)
+    for _ in range(600 if ctx.tier == 'quick' else 6000):
+        c = rng.choice('!a\\%^ @')
+        ops = [rng.choice(['D', 'V'])] + ['%d=%d' % (ord(c), rng.randint(0, 15)) for _ in range(rng.randint(3, 5))]
+        yield Case('code', line(ops, c + 'b'), None)
+        yield Case('tok', line(ops, 'x' + c + 'y' + c + c + 'z'), None)
     n = 6000 if ctx.tier == 'quick' else 150000
     for _ in range(n):
         k = rng.choice([3, 6, 10, 20, 40, 200]) if rng.random() < 0.9 else rng.randint(0, 8)
